@@ -183,10 +183,15 @@ def _jsonable(h):
     return {k: (v if isinstance(v, (int, float, str, bool, dict, type(None))) else repr(v)) for k, v in h.items()}
 
 
-def job_kauri(L, m=2):
+def job_kauri(L, m=2, long_m=None):
     """Kauri.predict / Tree.predict on symbolic points: subsets, orders, and public predict vs direct routing"""
     loader.install()
     res = _new()
+    sels = selections(m)
+    if long_m:
+        from .c01 import long_pattern
+        pattern = long_pattern(long_m, m)
+        sels = long_selections(long_m)
     kmod = loader.load("tree.kauri")
     U = loader.load("tree._utils")
     d = 2
@@ -206,6 +211,8 @@ def job_kauri(L, m=2):
                 mdl.tree_ = t
                 mdl.n_features_in_ = d
                 X = harness.free_matrix(m, d, "x")
+                if long_m:
+                    X = X[np.asarray(pattern)]
                 box["mdl"] = mdl
                 return mdl, X
 
@@ -213,11 +220,11 @@ def job_kauri(L, m=2):
                 mdl, X = arg
                 full = [int(v) for v in mdl.predict(X)]
                 direct = [int(v) for v in mdl.tree_.predict(X)]
-                outs = [(sel, [int(v) for v in mdl.predict(X[sel])]) for sel in selections(m)]
+                outs = [(sel, [int(v) for v in mdl.predict(X[sel])]) for sel in sels]
                 return full, direct, outs
 
             ex = Explorer(max_paths=4000)
-            tag0 = f"kauri/L{L}/shape{c19.shapes(L).index(shape)}/f{''.join(map(str, feats))}"
+            tag0 = f"kauri/L{L}{'/N%d' % long_m if long_m else ''}/shape{c19.shapes(L).index(shape)}/f{''.join(map(str, feats))}"
             for out, pc, trace in ex.run(body, setup):
                 res["paths"] += 1
                 if isinstance(out, PathError):
@@ -285,7 +292,7 @@ def replay(rep, verbose=False):
         hyper.setdefault("base_kernel", "rbf")
         hyper.setdefault("base_kernel_params", {"gamma": 5.0})
     for attempt in range(3):
-        mdl, X, params, dmm, G = cm.build_concrete(family, shape, model, hyper={k: v for k, v in hyper.items() if k in ("base_kernel", "base_kernel_params")} or None)
+        mdl, X, params, dmm, G = cm.build_concrete(family, shape, model, hyper={k: v for k, v in hyper.items() if k in ("base_kernel", "base_kernel_params", "batch_size")} or None)
         for _, arr in params:
             arr[...] = rng.normal(size=arr.shape)
         d = dm["d"] if cm.BASE[family] != "kernelrim" else 2
@@ -328,8 +335,13 @@ def jobs(tier):
     for fam, sh in [("LinearModel", (2, 2, 2)), ("MLPModel", (2, 2, 1, 2)), ("Douglas", (2, 1, 1, 2)), ("KernelRIM", (2, 2)), ("SparseMLPModel", (2, 1, 1, 2))]:
         for N in ([70] if q else [70, 300]):
             out.append({"name": f"{fam}/{cm.shape_str(sh)}/m2/long{N}", "target": "checks.c18:job_model", "kwargs": dict(family=fam, shape=sh, m=2, long_m=N), "timeout": 280 if q else 2400})
+        # the training batch size must not matter at prediction time (more rows than one batch, not a multiple of it)
+        out.append({"name": f"{fam}/{cm.shape_str(sh)}/m2/long70/batch16", "target": "checks.c18:job_model", "kwargs": dict(family=fam, shape=sh, m=2, long_m=70, hyper={"batch_size": 16}), "timeout": 280 if q else 2400})
+        out.append({"name": f"{fam}/{cm.shape_str(sh)}/m3/batch2", "target": "checks.c18:job_model", "kwargs": dict(family=fam, shape=sh, m=3, hyper={"batch_size": 2}), "timeout": 280 if q else 2400})
     for L in ([2, 3] if q else [2, 3, 4]):
         out.append({"name": f"kauri/L{L}", "target": "checks.c18:job_kauri", "kwargs": dict(L=L, m=2), "timeout": 280 if q else 2400})
+        if L <= 3:
+            out.append({"name": f"kauri/L{L}/long70", "target": "checks.c18:job_kauri", "kwargs": dict(L=L, m=2, long_m=70), "timeout": 280 if q else 2400})
     return out
 
 
